@@ -572,7 +572,13 @@ func (s *session) handleLogon(msg *Message) error {
 		return err
 	}
 
-	if !s.InitiateLogon {
+	// A Logon echoing a reset this side initiated itself on an established session (ResetSeqTime)
+	// completes the exchange: answering it again would reset the store a second time and send
+	// another Logon numbered 1.
+	_, awaitingLogon := s.stateMachine.State.(logonState)
+	echoOfOwnReset := !awaitingLogon && s.sentReset && resetSeqNumFlag.Bool()
+
+	if !s.InitiateLogon && !echoOfOwnReset {
 		if !s.HeartBtIntOverride {
 			var heartBtInt FIXInt
 			if err := msg.Body.GetField(tagHeartBtInt, &heartBtInt); err == nil {
